@@ -172,12 +172,92 @@ def mesh_tables(repo):
     return coord, allowed
 
 
+def exec_tables(repo):
+    """the same four tables obtained by EXECUTING the accessors on every grid class (three sizes each): which stored array a
+    getter returns / a setter replaces (by object identity), or which exception is raised"""
+    sys.path.insert(0, os.path.join(repo, "src"))
+    try:
+        import numpy as np
+        import pyfvtool as pf
+    except Exception as ex:
+        raise TranslateError(f"cannot import pyfvtool from {repo}/src: {type(ex).__name__}: {ex}")
+    ARGS = {"G1": lambda n: (n, 1.0), "C1": lambda n: (n, 1.0), "S1": lambda n: (n, 1.0),
+            "G2": lambda n: (n, n + 1, 1.0, 2.0), "C2": lambda n: (n, n + 1, 1.0, 2.0), "P2": lambda n: (n, n + 1, 1.0, 2.0),
+            "G3": lambda n: (n, n + 1, n + 2, 1.0, 2.0, 3.0), "C3": lambda n: (n, n + 1, n + 2, 1.0, 2.0, 3.0),
+            "S3": lambda n: (n, n + 1, n + 2, 1.0, 2.0, 3.0)}
+    PY = {v: k for k, v in CLS.items()}
+    def outcome(f):
+        try:
+            return ("ok", f())
+        except AttributeError:
+            return ("AttrErr", None)
+        except NotImplementedError:
+            return ("NotImplErr", None)
+        except Exception:
+            return ("OtherErr", None)
+    per_size = []
+    for n in (1, 2, 3):
+        get = {l: [] for l in LABELS}; st = {l: [] for l in LABELS}; coord = {}; allowed = {l: set() for l in LABELS}
+        for cq in ORDER:
+            mesh = getattr(pf, PY[cq])(*ARGS[cq](n))
+            for l in LABELS:
+                fv = pf.FaceVariable(mesh, 1.0)
+                slots = [fv._xvalue, fv._yvalue, fv._zvalue]
+                k, v = outcome(lambda: getattr(fv, l + "value"))
+                if k == "ok":
+                    hit = [i for i, a in enumerate(slots) if v is a]
+                    k = f"Slot {hit[0]}" if len(hit) == 1 else "OtherErr"
+                get[l].append(k)
+                fv = pf.FaceVariable(mesh, 1.0)
+                sentinel = np.full(3, 7.0)
+                k, _ = outcome(lambda: setattr(fv, l + "value", sentinel))
+                if k == "ok":
+                    hit = [i for i, a in enumerate((fv._xvalue, fv._yvalue, fv._zvalue)) if a is sentinel]
+                    k = f"Slot {hit[0]}" if len(hit) == 1 else "OtherErr"
+                st[l].append(k)
+            cp = mesh.cellcenters
+            labs = getattr(cp, "coordlabels", None)
+            if not isinstance(labs, dict) or not all(v in SLOT for v in labs.values()):
+                raise TranslateError(f"{PY[cq]}: cellcenters.coordlabels is not a dict of labels to _x/_y/_z")
+            coord[cq] = [(k, SLOT[v]) for k, v in labs.items()]
+            for l in LABELS:
+                k, v = outcome(lambda: getattr(cp, l))
+                if k == "ok":
+                    hit = [i for i, a in enumerate((cp._x, cp._y, cp._z)) if v is a]
+                    if len(hit) != 1:
+                        raise TranslateError(f"{PY[cq]}: cellcenters.{l} is none of the stored arrays")
+                    if dict(coord[cq]).get(l) != hit[0]:
+                        raise TranslateError(f"{PY[cq]}: cellcenters.{l} disagrees with coordlabels")
+                    allowed[l].add(hit[0])
+                elif k != "AttrErr" or l in dict(coord[cq]):
+                    raise TranslateError(f"{PY[cq]}: cellcenters.{l} -> {k}")
+                prop = getattr(type(cp), l, None)
+                if not isinstance(prop, property) or prop.fset is not None:
+                    raise TranslateError(f"CellProp.{l} is not a read-only property")
+        per_size.append((get, st, coord, {l: sorted(allowed[l]) for l in LABELS}))
+    if any(t != per_size[0] for t in per_size[1:]):
+        raise TranslateError("label behaviour depends on the grid size")
+    return per_size[0]
+
+
 def translate(repo):
-    get, st = face_tables(repo)
-    coord, allowed = mesh_tables(repo)
+    derivation = "the source text (AST of the if-chains and dict literals), cross-checked by executing every accessor on every grid class"
+    ex = exec_tables(repo)
+    try:
+        get, st = face_tables(repo)
+        coord, allowed = mesh_tables(repo)
+        if (get, st, coord, {l: sorted(v) for l, v in allowed.items()}) != (ex[0], ex[1], ex[2], ex[3]):
+            raise TranslateError("tables read from the source text and tables observed by execution differ")
+    except TranslateError as e:
+        if "differ" in str(e):
+            raise
+        # the source is organised differently (helper functions, lookup tables ...): fall back to the observed tables
+        get, st, coord, allowed = ex
+        derivation = "EXECUTION of every accessor on every grid class, three sizes each (the source text is not in the if-chain form: " + str(e)[:120] + ")"
     o = []
     w = o.append
-    w("(* GENERATED by tools/tr_labels.py from src/pyfvtool/face.py and src/pyfvtool/mesh.py. DO NOT EDIT. *)")
+    w("(* GENERATED by tools/tr_labels.py from src/pyfvtool/face.py and src/pyfvtool/mesh.py. DO NOT EDIT.")
+    w("   derived from " + derivation.replace("*)", "* )") + " *)")
     w("From Coq Require Import String List Arith.")
     w("From PFV Require Import Grid.")
     w("Import ListNotations.\nOpen Scope string_scope.")
